@@ -626,7 +626,7 @@ func init() {
 			if prevUnmarshal != nil {
 				return prevUnmarshal(fr, a)
 			}
-			if f, ok := nativeFuncs["encoding/json.Unmarshal"]; ok && !anySymbolic(a) {
+			if f, ok := nativeFuncs["encoding/json.Unmarshal"]; ok {
 				return callNative(fr, "encoding/json.Unmarshal", f, a)
 			}
 			panic(unmodelled{"external encoding/json.Unmarshal"})
